@@ -56,6 +56,38 @@ Theorem C25_fixed :
 Proof. exact C25_fixed_lemma. Qed.
 Print Assumptions C25_fixed.
 
+(* ---- transport level: several requests through one bfe_http.Transport with keep-alive (model run_transport of
+   getConn / putIdleConn / roundTrip / readLoop / writeLoop + markBroken) ---- *)
+(* For ALL scenarios: a backend connection that is not usable any more (its last request write failed or was
+   cut short of the declared Content-Length, or the response said "Connection: close") never receives
+   another byte: the streams of all existing connections are preserved verbatim, later requests only add
+   new connections after them. *)
+Theorem C25_transport_no_reuse : forall steps conns last,
+  exists more, run_transport steps (conns ++ [last]) false = conns ++ [last] ++ more.
+Proof. exact C25_transport_no_reuse_lemma. Qed.
+Print Assumptions C25_transport_no_reuse.
+(* A connection stays usable only after a step whose bytes are the complete write_request of a request with
+   a well-formed body (declared = delivered length) -- exactly the requests C25_one_wellformed_request
+   covers; so what precedes any later request on a connection is a sequence of complete requests. *)
+Theorem C25_transport_kept_is_complete : forall st, step_keeps st = true ->
+  step_bytes st = write_request (step_req st (t_delivered st)) /\
+  body_wf (w_body (step_req st (t_delivered st))) = true \/ t_declared st = 0 \/ 10 ^ 80 <= t_declared st.
+Proof. exact C25_transport_kept_is_complete_lemma. Qed.
+Print Assumptions C25_transport_kept_is_complete.
+(* The scenario of seeded/C25-r4 (early answer, body ends after 4 of 10 bytes, then a second request): two
+   connections, both acceptable to the stream predicate the harness evaluates; the spliced stream a
+   connection-reusing transport produces is rejected by it; three complete requests share one connection. *)
+Example C25_transport_demo :
+  length (run_transport sc_demo [] false) = 2%nat /\
+  forallb (fun s => seq_ok (S (length s)) s) (run_transport sc_demo [] false) = true.
+Proof. exact C25_transport_demo_lemma. Qed.
+Example C25_transport_splice_rejected : seq_ok (S (length spliced_demo)) spliced_demo = false.
+Proof. exact C25_transport_splice_rejected_lemma. Qed.
+Example C25_transport_keepalive :
+  length (run_transport sc_keepalive [] false) = 1%nat /\
+  forallb (fun s => seq_ok (S (length s)) s) (run_transport sc_keepalive [] false) = true.
+Proof. exact C25_transport_keepalive_lemma. Qed.
+
 (* Non-vacuity: per frontend a safe, well-formed accepted request (HTTP/1 POST with a 3-byte body and a
    value containing a bare CR; HTTP/2 with two cookies and an HTAB value; SPDY with a NUL-separated value
    containing CR LF "Evil: 1"; HTTP/1 chunked POST with two chunks and a trailer) for which the written
